@@ -232,7 +232,7 @@ pub fn run_stack<E: Entry, S: IdxC<Idx<E>>>(ctx: &mut Ctx) {
     }
     let items = batch::<E>(ctx);
     let n = items.len();
-    let nsrc = 1 + (ctx.hist_no as usize) % 3;
+    let nsrc = 1 + (ctx.hist_no as usize / 3) % 3;
     let mut aux = E::R::default();
     let mut srcs: Vec<Stack<E, S>> = (0..nsrc).map(|_| Stack::<E, S>::default()).collect();
     for (k, v) in items.iter().enumerate() {
